@@ -13,6 +13,7 @@ mod c11;
 mod c12;
 mod c13;
 mod c14;
+mod c16;
 mod c17;
 mod c20;
 mod common;
@@ -78,6 +79,7 @@ fn main() {
         "C13" => c13::run(&args),
         "C14" => c14::run_c14(&args),
         "C15" => c14::run_c15(&args),
+        "C16" => c16::run(&args),
         "C17" => c17::run(&args),
         "C20" => c20::run(&args),
         _ => {
